@@ -1526,3 +1526,396 @@ Example pipelined_invisible :
   exists x, getc s 0%nat = Some x /\ st x = CKeep /\ pbuf x = [KA] /\ resp x = 1%nat
             /\ ev_ready s (EvRd 0%nat) = false /\ n_running s = 0.
 Proof. vm_compute. eexists. repeat split. Qed.
+
+(* ------------------------------------------------------------------------------------------------ *)
+(* liveness-flavoured statements: what ONE loop period of the main thread achieves                  *)
+(* ------------------------------------------------------------------------------------------------ *)
+Definition m_ : label := LMain [] false.
+
+Theorem all_closed_zero : forall g s, reachable g s ->
+  (forall c x, getc s c = Some x -> st x = CClosed \/ st x = CPending) -> nr_conns s = 0.
+Proof.
+  intros g s R H. destruct (accounting g s R) as [A _]. rewrite A. unfold n_counted, getc in *.
+  revert H. generalize (conns s). induction l; simpl; intros; auto.
+  rewrite IHl. destruct (H 0%nat a eq_refl) as [E|E]; rewrite E; reflexivity.
+  intros c x Hc. apply (H (S c) x). auto.
+Qed.
+
+Lemma run_m : forall g s ls, run g s (m_ :: ls) = obind (main_step g s [] false) (fun s' => run g s' ls).
+Proof. reflexivity. Qed.
+
+Lemma pop_expired_step : forall g s now h k x, mpc s = MPop now -> keep s = h :: k -> getc s h = Some x ->
+  tmo x <= now ->
+  main_step g s [] false = Some (set_mpc (MUnreg now h) (set_nr (nr_conns s - 1) (updc h (set_st CExpiring) (set_keep k s)))).
+Proof.
+  intros. unfold main_step. rewrite H, H0, H1. assert (E : (now <? tmo x) = false) by (apply Z.ltb_ge; lia).
+  rewrite E. reflexivity.
+Qed.
+
+Lemma unreg_step : forall g s now h, mpc s = MUnreg now h ->
+  main_step g s [] false = Some (set_mpc (MPop now) (updc h close_conn (set_regd (remove1 h (regd s)) s))).
+Proof. intros. unfold main_step. rewrite H. reflexivity. Qed.
+
+Lemma run_two : forall g s s1 s2 ls, main_step g s [] false = Some s1 -> main_step g s1 [] false = Some s2 ->
+  run g s (m_ :: m_ :: ls) = run g s2 ls.
+Proof.
+  intros. change (run g s (m_ :: m_ :: ls)) with
+    (obind (main_step g s [] false) (fun s' => obind (main_step g s' [] false) (fun s'' => run g s'' ls))).
+  rewrite H. simpl. rewrite H0. reflexivity.
+Qed.
+
+(* the reaper, started with clock value [now], closes every connection of an expired prefix of _keep *)
+Lemma reap_prefix : forall g now c pre rest s, mpc s = MPop now -> keep s = pre ++ c :: rest ->
+  (forall k, In k (pre ++ [c]) -> exists x, getc s k = Some x /\ tmo x <= now) ->
+  exists s', run g s (repeat m_ (2 * (length pre + 1))) = Some s' /\ mpc s' = MPop now /\ keep s' = rest
+             /\ exists x, getc s' c = Some x /\ st x = CClosed.
+Proof.
+  induction pre as [|h pre IH]; intros rest s Hpc Hk Hall.
+  - simpl in Hk. destruct (Hall c) as [x [Hx Ht]]. simpl; auto.
+    change (repeat m_ (2 * (length (@nil nat) + 1))) with [m_; m_].
+    pose proof (pop_expired_step g s now c rest x Hpc Hk Hx Ht) as S1.
+    pose proof (unreg_step g _ now c (eq_refl : mpc (set_mpc (MUnreg now c) (set_nr (nr_conns s - 1) (updc c (set_st CExpiring) (set_keep rest s)))) = MUnreg now c)) as S2.
+    eexists. split. rewrite (run_two _ _ _ _ _ S1 S2). reflexivity.
+    split. reflexivity. split. reflexivity.
+    unfold getc in *. simpl. rewrite nth_upd_eq, nth_upd_eq, Hx. simpl. eauto.
+  - simpl in Hk. destruct (Hall h) as [x [Hx Ht]]. simpl; auto.
+    replace (2 * (length (h :: pre) + 1))%nat with (S (S (2 * (length pre + 1)))) by (simpl; lia).
+    change (repeat m_ (S (S (2 * (length pre + 1))))) with (m_ :: m_ :: repeat m_ (2 * (length pre + 1))).
+    pose proof (pop_expired_step g s now h (pre ++ c :: rest) x Hpc Hk Hx Ht) as S1.
+    pose proof (unreg_step g _ now h (eq_refl : mpc (set_mpc (MUnreg now h) (set_nr (nr_conns s - 1) (updc h (set_st CExpiring) (set_keep (pre ++ c :: rest) s)))) = MUnreg now h)) as S2.
+    rewrite (run_two _ _ _ _ _ S1 S2).
+    apply IH.
+    + reflexivity.
+    + reflexivity.
+    + intros k Hin. destruct (Hall k) as [y [Hy Hty]]. simpl. right; auto.
+      unfold getc in *. simpl. destruct (Nat.eqb_spec h k).
+      * subst. rewrite nth_upd_eq, nth_upd_eq, Hy. simpl. eauto.
+      * rewrite nth_upd_ne, nth_upd_ne by auto. eauto.
+Qed.
+
+(* keep-alive expiry happens within one loop period: from the loop's wait point, the main thread alone closes
+   every connection of the expired prefix of _keep (1 + 2 per connection of its atomic blocks) *)
+Theorem keepalive_expires : forall g s c pre rest, mpc s = MWait -> orphan s = false ->
+  keep s = pre ++ c :: rest ->
+  (forall k, In k (pre ++ [c]) -> exists x, getc s k = Some x /\ tmo x <= clock s) ->
+  exists s', run g s (repeat m_ (1 + 2 * (length pre + 1))) = Some s'
+             /\ exists x, getc s' c = Some x /\ st x = CClosed.
+Proof.
+  intros g s c pre rest Hpc Hor Hk Hall.
+  change (repeat m_ (1 + 2 * (length pre + 1))) with (m_ :: repeat m_ (2 * (length pre + 1))).
+  assert (S1 : main_step g s [] false = Some (set_mpc (MPop (clock s)) (set_futs (filter (fun f => negb (snd f)) (futs s)) s))).
+  { unfold main_step. rewrite Hpc, Hor. reflexivity. }
+  rewrite run_m, S1. unfold obind at 1.
+  destruct (reap_prefix g (clock s) c pre rest
+             (set_mpc (MPop (clock s)) (set_futs (filter (fun f => negb (snd f)) (futs s)) s)))
+    as [s' [R [_ [_ X]]]]; auto.
+  exists s'. split; auto.
+Qed.
+
+(* ---- a request that the selector reports is dispatched within the same loop period ---- *)
+Definition dispatchable (s:state) (c:nat) : Prop :=
+  exists x, getc s c = Some x /\ In c (regd s) /\ (inited x = false \/ In c (keep s)).
+
+Definition queued (s:state) (c:nat) : Prop :=
+  (exists x, getc s c = Some x /\ st x = CQueued) /\ In (c, false) (futs s).
+
+Lemma ev_mem_rd : forall c r, In (EvRd c) r -> ev_mem (EvRd c) r = true.
+Proof.
+  induction r as [|[l|c'] r]; simpl; intros; try contradiction.
+  - destruct H. discriminate. auto.
+  - destruct H. inversion H. rewrite Nat.eqb_refl. auto. rewrite IHr; auto. apply orb_true_r.
+Qed.
+
+Lemma process_events : forall g c evs s, Inv g s -> mpc s = dispatch evs -> ev_nodup evs = true ->
+  In (EvRd c) evs -> (forall c', In (EvRd c') evs -> In c' (regd s)) -> dispatchable s c ->
+  exists n s', run g s (repeat m_ n) = Some s' /\ queued s' c.
+Proof.
+  induction evs as [|e r IH]; intros s HI Hpc Hnd Hin Hreg [x [Hx [Hr Hk]]]. contradiction.
+  simpl in Hnd. apply andb_true_iff in Hnd. destruct Hnd as [Hnm Hnd]. apply negb_true_iff in Hnm.
+  destruct e as [l|c'].
+  - (* an accept event first *)
+    simpl in Hpc. destruct Hin as [Hin|Hin]; try discriminate.
+    assert (Hreg' : forall c', In (EvRd c') r -> In c' (regd s)) by (intros; apply Hreg; right; auto).
+    destruct (backlog s) as [|h b] eqn:Hb.
+    + assert (S1 : main_step g s [] false = Some (set_mpc (dispatch r) s)).
+      { unfold main_step. rewrite Hpc, Hb. reflexivity. }
+      destruct (IH (set_mpc (dispatch r) s)) as [n [s' [R Q]]]; auto.
+      * apply (step_inv g s m_). auto. exact S1.
+      * exists x. auto.
+      * exists (S n), s'. split; auto. change (repeat m_ (S n)) with (m_ :: repeat m_ n). rewrite run_m, S1. exact R.
+    + assert (Hh : stl (conns s) h = Some CPending).
+      { unfold Inv in HI. apply (i_backlog _ _ _ _ _ _ _ _ HI). rewrite Hb. left; auto. }
+      assert (Hhc : h <> c).
+      { intro; subst h. unfold Inv in HI. apply (i_regd _ _ _ _ _ _ _ _ HI) in Hr. rewrite Hh in Hr.
+        destruct Hr as [?|[?|?]]; discriminate. }
+      assert (Hhr : mem h (regd s) = false).
+      { apply mem_false. intro Hm. unfold Inv in HI. apply (i_regd _ _ _ _ _ _ _ _ HI) in Hm. rewrite Hh in Hm.
+        destruct Hm as [?|[?|?]]; discriminate. }
+      set (s1 := set_mpc (MAccReg h r) (set_nr (nr_conns s + 1) (set_backlog b (updc h (set_st CNew) s)))).
+      assert (S1 : main_step g s [] false = Some s1).
+      { unfold main_step. rewrite Hpc, Hb. reflexivity. }
+      set (s2 := set_mpc (dispatch r) (set_regd (regd s1 ++ [h]) s1)).
+      assert (S2 : main_step g s1 [] false = Some s2).
+      { unfold main_step. simpl mpc. cbv iota. simpl regd. rewrite Hhr. reflexivity. }
+      assert (I1 : Inv g s1) by (apply (step_inv g s m_); auto).
+      assert (I2 : Inv g s2) by (apply (step_inv g s1 m_); auto).
+      destruct (IH s2) as [n [s' [R Q]]]; auto.
+      * simpl. intros c' H'. apply in_or_app. left. auto.
+      * exists x. split. unfold getc in *. simpl. rewrite nth_upd_ne; auto.
+        split. simpl. apply in_or_app. left; auto. simpl. auto.
+      * exists (S (S n)), s'. split; auto.
+        change (repeat m_ (S (S n))) with (m_ :: m_ :: repeat m_ n). rewrite (run_two _ _ _ _ _ S1 S2). exact R.
+  - simpl in Hpc. destruct (Nat.eqb_spec c' c).
+    + (* our connection *) subst c'. exists 1%nat.
+      assert (Hm : mem c (regd s) = true) by (apply mem_In; auto).
+      assert (Hrace : inited x && negb (mem c (keep s)) = false).
+      { destruct Hk as [E|E]. rewrite E. auto. apply mem_In in E. rewrite E. simpl. apply andb_false_r. }
+      eexists. split.
+      * simpl. unfold main_step. rewrite Hpc. unfold rd_step. rewrite Hm. simpl negb. cbv iota.
+        rewrite Hx, Hrace. reflexivity.
+      * split.
+        -- unfold getc. destruct (inited x); simpl; rewrite nth_upd_eq; unfold getc in Hx; rewrite Hx; simpl; eauto.
+        -- destruct (inited x); simpl; apply in_or_app; right; left; auto.
+    + (* another connection is dispatched first *)
+      destruct Hin as [Hin|Hin]. inversion Hin; congruence.
+      assert (Hr' : In c' (regd s)) by (apply Hreg; left; auto).
+      assert (Hm : mem c' (regd s) = true) by (apply mem_In; auto).
+      destruct (main_step g s [] false) as [s1|] eqn:S1.
+      2:{ exfalso. unfold main_step in S1. rewrite Hpc in S1. unfold rd_step in S1. rewrite Hm in S1. simpl in S1.
+          destruct (getc s c'); try discriminate. destruct (inited c0 && negb (mem c' (keep s))); discriminate. }
+      assert (I1 : Inv g s1) by (apply (step_inv g s m_); auto).
+      assert (P1 : mpc s1 = dispatch r /\ getc s1 c = Some x /\ In c (regd s1) /\ (In c (keep s) -> In c (keep s1))
+                   /\ (forall k, k <> c' -> In k (regd s) -> In k (regd s1))).
+      { unfold main_step in S1. rewrite Hpc in S1. unfold rd_step in S1. rewrite Hm in S1. simpl negb in S1. cbv iota in S1.
+        assert (Hx' : getc s c' <> None).
+        { unfold Inv in HI. apply (i_regd _ _ _ _ _ _ _ _ HI) in Hr'. unfold stl, getc in *.
+          destruct (nth_error (conns s) c'); try congruence. destruct Hr' as [?|[?|?]]; discriminate. }
+        destruct (getc s c') as [x1|] eqn:Hx1; try congruence.
+        destruct (inited x1 && negb (mem c' (keep s))).
+        - inv_some. simpl. repeat split; auto. apply remove1_other; auto. intros; apply remove1_other; auto.
+        - inv_some. unfold getc in *. destruct (inited x1); simpl; rewrite nth_upd_ne by auto; repeat split; auto;
+            try (apply remove1_other; auto); try (intros; apply remove1_other; auto). }
+      destruct P1 as [M1 [G1 [R1 [K1 RR]]]].
+      destruct (IH s1) as [k [s' [R Q]]]; auto.
+      * intros k Hk'. apply RR. intro; subst k. apply ev_mem_rd in Hk'. congruence. apply Hreg. right; auto.
+      * exists x. split; auto. split; auto. destruct Hk; auto.
+      * exists (S k), s'. split; auto. change (repeat m_ (S k)) with (m_ :: repeat m_ k). rewrite run_m, S1. exact R.
+Qed.
+
+(* While the loop is polling (which is what D20 takes away) a request that is visible to the selector (which is
+   what D21 takes away) is dispatched in the same loop period by the main thread alone, and a free pool thread can
+   then start it. *)
+Theorem served_if_thread_free : forall g s evs c, reachable g s -> mpc s = MSel -> evs_ok g s evs = true ->
+  In (EvRd c) evs -> dispatchable s c ->
+  exists n s', run g s (LMain evs false :: repeat m_ n) = Some s' /\ queued s' c
+               /\ (pool_busy s' < threads g -> exists s'', step g s' (LStart c) = Some s'').
+Proof.
+  intros g s evs c R Hpc Hok Hin Hd. pose proof (reachable_inv _ _ R) as HI.
+  assert (S0 : step g s (LMain evs false) = Some (set_mpc (dispatch evs) s)).
+  { simpl. unfold main_step. rewrite Hpc, Hok. reflexivity. }
+  pose proof Hok as Hok'. unfold evs_ok in Hok'. apply andb_true_iff in Hok'. destruct Hok' as [Hall Hnd].
+  destruct (process_events g c evs (set_mpc (dispatch evs) s)) as [n [s' [Rn Q]]]; auto.
+  - apply (step_inv g s (LMain evs false)); auto.
+  - intros c' H'. rewrite forallb_forall in Hall. apply Hall in H'. simpl in H'. apply mem_In. auto.
+  - exists n, s'. split. simpl run. simpl in S0. rewrite S0. exact Rn. split; auto.
+    intros Hb. destruct Q as [[x' [Hx' Hq]] _]. simpl. apply Z.ltb_lt in Hb. rewrite Hb.
+    unfold p_start. rewrite Hx', Hq. eauto.
+Qed.
+
+(* ------------------------------------------------------------------------------------------------ *)
+(* D21: a request buffered in the parser of an idle keep-alive connection is never served           *)
+(* ------------------------------------------------------------------------------------------------ *)
+Definition pc_noev (c:nat) (p:pc) : Prop :=
+  match p with
+  | MAcc r | MAccReg _ r => ~ In (EvRd c) r
+  | MRd c' r | MFin c' r => c' <> c /\ ~ In (EvRd c) r
+  | _ => True
+  end.
+
+Lemma pc_noev_dispatch : forall c r, ~ In (EvRd c) r -> pc_noev c (dispatch r).
+Proof.
+  intros c r H. destruct r as [|[l|c'] r]; simpl in *; auto.
+  split. intro; subst; apply H; auto. auto.
+Qed.
+
+(* the connection waits with its buffered request: nothing to read on the socket, client still there *)
+Definition waiting (n0:nat) (s:state) (c:nat) : Prop :=
+  exists x, getc s c = Some x /\ resp x = n0 /\ sockbuf x = [] /\ eof x = false
+            /\ (st x = CKeep \/ st x = CExpiring \/ st x = CClosed).
+
+Definition J (g:cfg) (n0:nat) (c:nat) (s:state) : Prop := Inv g s /\ pc_noev c (mpc s) /\ waiting n0 s c.
+
+Definition client_silent (c:nat) (l:label) : Prop :=
+  match l with LSend c' _ | LCClose c' => c' <> c | _ => True end.
+
+Lemma waiting_frame : forall n0 s s' c, waiting n0 s c -> getc s' c = getc s c -> waiting n0 s' c.
+Proof. intros n0 s s' c [x H] E. exists x. rewrite E. auto. Qed.
+
+Lemma getc_updc_other : forall c c0 f s, c0 <> c -> getc (updc c0 f s) c = getc s c.
+Proof. intros. rewrite getc_updc. destruct (Nat.eqb_spec c0 c); congruence. Qed.
+
+Lemma waiting_not_handling : forall n0 s c x, waiting n0 s c -> getc s c = Some x -> is_handling (st x) = false.
+Proof. intros n0 s c x [y [Hy [_ [_ [_ H]]]]] Hx. rewrite Hx in Hy. inversion Hy; subst. destruct H as [E|[E|E]]; rewrite E; auto. Qed.
+
+Ltac not_me W Hx0 Hst0 :=
+  let E := fresh in intro E; subst;
+  pose proof (waiting_not_handling _ _ _ _ W Hx0) as E; rewrite Hst0 in E; discriminate.
+
+Lemma p_start_other : forall n0 s c0 s' c, waiting n0 s c -> p_start s c0 = Some s' -> getc s' c = getc s c.
+Proof.
+  unfold p_start. intros n0 s c0 s' c W E. destruct (getc s c0) as [x0|] eqn:Hx0; try discriminate.
+  destruct (st x0) eqn:Hst0; try discriminate. inv_some. apply getc_updc_other. not_me W Hx0 Hst0.
+Qed.
+
+Lemma p_handle_other : forall g n0 s c0 s' c, waiting n0 s c -> p_handle g s c0 = Some s' -> getc s' c = getc s c.
+Proof.
+  unfold p_handle. intros g n0 s c0 s' c W E. destruct (getc s c0) as [x0|] eqn:Hx0; try discriminate.
+  destruct (st x0) eqn:Hst0; try discriminate.
+  assert (N : c0 <> c) by (not_me W Hx0 Hst0).
+  destruct (match pbuf x0 with [] => sockbuf x0 | _ :: _ => pbuf x0 end) as [|k rest].
+  - destruct (eof x0); try discriminate. inv_some. unfold getc; simpl; apply nth_upd_ne; auto.
+  - destruct k; inv_some; simpl; (unfold getc; simpl; apply nth_upd_ne; auto).
+Qed.
+
+Lemma p_finish_other : forall g n0 s c0 s' c, waiting n0 s c -> p_finish g s c0 = Some s' -> getc s' c = getc s c.
+Proof.
+  unfold p_finish. intros g n0 s c0 s' c W E. destruct (getc s c0) as [x0|] eqn:Hx0; try discriminate.
+  destruct (st x0) eqn:Hst0; try discriminate.
+  assert (N : c0 <> c) by (not_me W Hx0 Hst0).
+  destruct (ka && alive s); inv_some; simpl; (unfold getc; simpl; apply nth_upd_ne; auto).
+Qed.
+
+Lemma p_finlock_other : forall n0 s c0 s' c, waiting n0 s c -> p_finlock s c0 = Some s' -> getc s' c = getc s c.
+Proof.
+  unfold p_finlock. intros n0 s c0 s' c W E. destruct (getc s c0) as [x0|] eqn:Hx0; try discriminate.
+  destruct (st x0) eqn:Hst0; try discriminate.
+  assert (N : c0 <> c) by (not_me W Hx0 Hst0).
+  destruct (pclosed s || mem c0 (regd s)); inv_some; simpl; (unfold getc; simpl; apply nth_upd_ne; auto).
+Qed.
+
+Lemma p_cancel_other : forall n0 s c0 s' c, waiting n0 s c -> p_cancel s c0 = Some s' -> getc s' c = getc s c.
+Proof.
+  unfold p_cancel. intros n0 s c0 s' c W E. destruct (getc s c0) as [x0|] eqn:Hx0; try discriminate.
+  destruct (st x0) eqn:Hst0; try discriminate.
+  assert (N : c0 <> c) by (not_me W Hx0 Hst0). inv_some. simpl. (unfold getc; simpl; apply nth_upd_ne; auto).
+Qed.
+
+Lemma head_getc : forall g s c, getc (head g s) c = getc s c.
+Proof. intros. unfold getc. rewrite head_conns. auto. Qed.
+
+Lemma head_noev : forall g s c, pc_noev c (mpc (head g s)).
+Proof. intros. unfold head. destruct (negb (alive s)); [|destruct (nr_conns s <? wconn g)]; simpl; auto. Qed.
+
+Lemma main_step_J : forall g n0 c s evs b s', J g n0 c s ->
+  (mpc s = MSel -> forallb (ev_ready s) evs = true) ->
+  main_step g s evs b = Some s' -> pc_noev c (mpc s') /\ waiting n0 s' c.
+Proof.
+  intros g n0 c s evs b s' [HI [Hnv W]] Hrdy E. unfold main_step in E. destruct (mpc s) eqn:Hpc.
+  - destruct (evs_ok g s evs); try discriminate. inv_some. split.
+    + simpl. apply pc_noev_dispatch. intro Hin. pose proof (Hrdy eq_refl) as Hr. rewrite forallb_forall in Hr.
+      apply Hr in Hin. simpl in Hin. destruct W as [x [Hx [_ [Hs [He _]]]]]. rewrite Hx, Hs, He in Hin. discriminate.
+    + eapply waiting_frame; eauto.
+  - simpl in Hnv. destruct (backlog s) as [|h bl] eqn:Hb; inv_some.
+    + split. simpl. apply pc_noev_dispatch; auto. eapply waiting_frame; eauto.
+    + split. simpl. auto. eapply waiting_frame; eauto. simpl. apply (getc_updc_other c h).
+      intro; subst h. unfold Inv in HI. assert (Hp : stl (conns s) c = Some CPending).
+      { apply (i_backlog _ _ _ _ _ _ _ _ HI). rewrite Hb. left; auto. }
+      destruct W as [x [Hx [_ [_ [_ Hst]]]]]. unfold getc in Hx. rewrite (stl_some _ _ _ Hx) in Hp.
+      destruct Hst as [E|[E|E]]; rewrite E in Hp; discriminate.
+  - simpl in Hnv. destruct (mem c0 (regd s)); inv_some; split; simpl; auto; try (apply pc_noev_dispatch; auto);
+      eapply waiting_frame; eauto.
+  - simpl in Hnv. destruct Hnv as [Hne Hnr]. unfold rd_step in E.
+    destruct (negb (mem c0 (regd s))). inv_some. split; simpl; auto; try (eapply waiting_frame; eauto; fail).
+    destruct (getc s c0) as [x0|] eqn:Hx0. 2:{ inv_some. split; simpl; auto; try (eapply waiting_frame; eauto; fail). }
+    destruct (inited x0 && negb (mem c0 (keep s))).
+    { inv_some. split. simpl. apply pc_noev_dispatch; auto. eapply waiting_frame; eauto. }
+    match type of E with (if b then inline_run g ?t c0 r else _) = _ => set (s4 := t) in * end.
+    assert (G4 : getc s4 c = getc s c).
+    { unfold s4. destruct (inited x0); simpl; (unfold getc; simpl; apply nth_upd_ne; auto). }
+    assert (W4 : waiting n0 s4 c) by (eapply waiting_frame; eauto).
+    assert (M4 : mpc s4 = dispatch r) by reflexivity.
+    destruct b; [|inv_some; split; [rewrite M4; apply pc_noev_dispatch; auto | auto]].
+    unfold inline_run in E.
+    destruct (p_start s4 c0) as [s1|] eqn:E1; simpl in E; try discriminate.
+    destruct (p_handle g s1 c0) as [s2|] eqn:E2; simpl in E; try discriminate.
+    destruct (p_finish g s2 c0) as [s3|] eqn:E3; simpl in E; try discriminate.
+    assert (W1 : waiting n0 s1 c) by (eapply waiting_frame; eauto; eapply p_start_other; eauto).
+    assert (W2 : waiting n0 s2 c) by (eapply waiting_frame; eauto; eapply p_handle_other; eauto).
+    assert (W3 : waiting n0 s3 c) by (eapply waiting_frame; eauto; eapply p_finish_other; eauto).
+    destruct (p_start_same _ _ _ E1) as [A1 _]. destruct (p_handle_same _ _ _ _ E2) as [B1 _].
+    destruct (p_finish_same _ _ _ _ E3) as [C1 _].
+    assert (M3 : mpc s3 = dispatch r) by congruence.
+    destruct (getc s3 c0) as [x3|]; [destruct (st x3)|]; inv_some;
+      try (split; [rewrite M3; apply pc_noev_dispatch; auto | auto]; fail).
+    split. simpl. auto. eapply waiting_frame; eauto.
+  - simpl in Hnv. destruct Hnv as [Hne Hnr].
+    destruct (p_finlock s c0) as [s1|] eqn:E1; simpl in E; try discriminate. inv_some.
+    split. simpl. apply pc_noev_dispatch; auto.
+    apply (waiting_frame n0 s1 _ c). apply (waiting_frame n0 s s1 c W). eapply p_finlock_other; eauto. reflexivity.
+  - destruct (orphan s); inv_some; split; simpl; auto; eapply waiting_frame; eauto.
+  - destruct (keep s) as [|h k] eqn:Hk.
+    + inv_some. split. apply head_noev. eapply waiting_frame; eauto. apply head_getc.
+    + destruct (getc s h) as [x0|] eqn:Hx0. 2:{ inv_some. split; simpl; auto; try (eapply waiting_frame; eauto; fail). }
+      destruct (now <? tmo x0); inv_some; split; simpl; auto.
+      destruct (Nat.eqb_spec h c).
+      * subst h. destruct W as [x [Hx [H1 [H2 [H3 H4]]]]]. exists (set_st CExpiring x).
+        split. unfold getc in *. simpl. rewrite nth_upd_eq, Hx. reflexivity.
+        simpl. repeat split; auto.
+      * eapply waiting_frame; eauto. (unfold getc; simpl; apply nth_upd_ne; auto).
+  - inv_some. split. apply head_noev. eapply waiting_frame; eauto. rewrite head_getc. reflexivity.
+  - inv_some. split. simpl. auto. destruct (Nat.eqb_spec c0 c).
+    + subst c0. destruct W as [x [Hx [H1 [H2 [H3 H4]]]]]. exists (close_conn x).
+      split. unfold getc in *. simpl. rewrite nth_upd_eq, Hx. reflexivity. simpl. repeat split; auto.
+    + eapply waiting_frame; eauto. (unfold getc; simpl; apply nth_upd_ne; auto).
+  - inv_some. split. simpl; auto. eapply waiting_frame; eauto.
+  - discriminate.
+  - discriminate.
+Qed.
+
+Lemma step_J : forall g n0 c s l s', J g n0 c s -> client_silent c l -> label_ready s l = true ->
+  step g s l = Some s' -> J g n0 c s'.
+Proof.
+  intros g n0 c s l s' HJ Hsil Hrdy E. pose proof HJ as [HI [Hnv W]].
+  split. eapply step_inv; eauto.
+  destruct l; simpl in E.
+  - eapply main_step_J; eauto. intro Hm. simpl in Hrdy. rewrite Hm in Hrdy. auto.
+  - destruct (pool_busy s <? threads g); try discriminate. destruct (p_start_same _ _ _ E) as [A _].
+    rewrite A. split; auto. eapply waiting_frame; eauto. eapply p_start_other; eauto.
+  - destruct (p_handle_same _ _ _ _ E) as [A _].
+    rewrite A. split; auto. eapply waiting_frame; eauto. eapply p_handle_other; eauto.
+  - destruct (p_finish_same _ _ _ _ E) as [A _].
+    rewrite A. split; auto. eapply waiting_frame; eauto. eapply p_finish_other; eauto.
+  - destruct (p_finlock_same _ _ _ E) as [A _].
+    rewrite A. split; auto. eapply waiting_frame; eauto. eapply p_finlock_other; eauto.
+  - destruct (p_cancel_same _ _ _ E) as [A _].
+    rewrite A. split; auto. eapply waiting_frame; eauto. eapply p_cancel_other; eauto.
+  - inv_some. split; auto. destruct W as [x [Hx R]]. exists x. split; auto. unfold getc in *. simpl.
+    rewrite nth_error_app1; auto. apply nth_error_Some. congruence.
+  - simpl in Hsil. destruct (getc s c0) as [x0|] eqn:Hx0; try discriminate. destruct (eof x0); try discriminate.
+    destruct (st x0); inv_some; split; auto; eapply waiting_frame; eauto; (unfold getc; simpl; apply nth_upd_ne; auto).
+  - simpl in Hsil. destruct (getc s c0) as [x0|] eqn:Hx0; try discriminate. destruct (eof x0); try discriminate.
+    inv_some. split; auto. eapply waiting_frame; eauto. (unfold getc; simpl; apply nth_upd_ne; auto).
+  - inv_some. split; auto.
+  - inv_some. split; auto.
+  - inv_some. split; auto.
+Qed.
+
+(* However long the client waits for the answer to its pipelined request, whatever else happens: with a selector
+   that reports what is readable the request is never answered; the connection can only expire. *)
+Theorem buffered_request_never_served : forall g n0 c ls s s', J g n0 c s -> Forall (client_silent c) ls ->
+  runr g s ls = Some s' -> waiting n0 s' c.
+Proof.
+  induction ls; simpl; intros s s' HJ F E.
+  - inv_some. destruct HJ as [_ [_ W]]. auto.
+  - inversion F; subst. destruct (label_ready s a) eqn:Hr; try discriminate.
+    destruct (step g s a) as [s1|] eqn:E1; simpl in E; try discriminate.
+    apply (IHls s1); auto. eapply step_J; eauto.
+Qed.
+
+Definition s21k : state := the (run g21 (init g21) (firstn 15 ls21)) (init g21).
+
+Lemma s21k_J : J g21 1 0 s21k.
+Proof.
+  split. apply reachable_inv. exists (firstn 15 ls21). vm_compute. reflexivity.
+  split. vm_compute. auto. eexists. split. vm_compute. reflexivity. repeat split. left. reflexivity.
+Qed.
